@@ -449,6 +449,27 @@ def words_of_argv(argv, files):
 
 # ---------------------------------------------------------------- direct oracle (tape-free, independent of the model)
 
+def canonical(argv):
+    """the same command line spelt --flag=value throughout, or None when it cannot be read that way"""
+    if not argv or argv[0] not in ("characters", "words"):
+        return None
+    out, i = [argv[0]], 1
+    while i < len(argv):
+        a = argv[i]
+        m = re.fullmatch(r"--?([a-z]+)(=(.*))?", a, re.S)
+        if not m:
+            return None
+        name, val = m.group(1), m.group(3)
+        if m.group(2) is None and name != "entropy":
+            if i + 1 >= len(argv):
+                return None
+            val = argv[i + 1]
+            i += 1
+        out.append("--" + name + ("" if val is None else "=" + val))
+        i += 1
+    return out
+
+
 def documented(argv, files):
     """what the documentation says a canonical command line means; None when the line is not one the oracle decides"""
     if argv and argv[0].startswith("-"):
@@ -533,6 +554,11 @@ def oracle(ctx, deep):
         extra = [(["characters", "--length=%d" % L, "--allow=%s" % a, "--require=%s" % r, "--exclude=%s" % e])
                  for L in (4, 9) for a in ("digits", "lowercase,uppercase", "symbols,digits") for r in ("", "digits", "symbols") for e in ("", "ambiguous", "digits")]
         lines = [argv for argv, rc, out, err, m in ctx.cli_results] + extra
+        # command lines on which the model and the binary disagreed are judged first, in their canonical spelling
+        # (--flag=value; Go's flag package reads -flag, --flag, "--flag value" and "--flag=value" alike)
+        disagreed = set(mm.get("case") for mm in ctx.mismatches if mm.get("family") == "cli")
+        first = [canonical(argv) for argv in lines if " ".join(argv) in disagreed]
+        lines = [a for a in first if a is not None] + lines
         for argv in lines:
             if done >= budget:
                 break
